@@ -99,6 +99,9 @@ func (p *Project) SourceFiles() map[string]string {
 		return accs[k]
 	}
 	useType := func(a *fileAcc, t TypeRef) {
+		if t.Kind == "time" {
+			a.imports["time"] = true
+		}
 		if t.Pkg != "" && t.Pkg != a.pkg {
 			a.imports[p.ModPath()+"/"+t.Pkg] = true
 		}
@@ -153,6 +156,10 @@ func (p *Project) SourceFiles() map[string]string {
 			tag := fmt.Sprintf("json:%q", f.JSON)
 			if f.Validate != "" {
 				tag += fmt.Sprintf(" validate:%q", f.Validate)
+			}
+			if f.Embedded {
+				fmt.Fprintf(&a.body, "\t%s\n", f.Type.GoString(s.Pkg))
+				continue
 			}
 			fmt.Fprintf(&a.body, "\t%s %s `%s`\n", f.GoName, f.Type.GoString(s.Pkg), tag)
 		}
